@@ -432,7 +432,80 @@ def rule_strict(program, ctx):
         ctx.bad(finding_func(P, rid, ps, "pre_save no longer bounds the superseded versions by created_at", text="def pre_save(...) :: older"))
 
 
+def rule_noop(program, ctx, prop=P, rid="C06.noop"):
+    ctx.rule(
+        rid,
+        "a refused duplicate changes nothing: in DBStorage.post_save every write (connection.execute, self.process_tags - which also executes NIP-09 deletions) "
+        "is reached only through the `changed` gate; add_event passes changed = (rowcount == 1)",
+        floor=1,
+    )
+    fn = program.func("nostr_relay.storage.db:DBStorage.post_save")
+    cfg = cfg_of(fn)
+
+    def gate(expr, pol):
+        return isinstance(expr, ast.Name) and expr.id == "changed" and pol
+
+    passes = test_edges(cfg, gate)
+    writes = cfg.stmt_nodes(lambda s: any(call_name(c).endswith(".execute") or call_name(c).split(".")[-1] in ("process_tags",) for c in own_calls(s)), kinds=("stmt",))
+    if not writes:
+        ctx.bad(finding_func(prop, rid, fn, "post_save no longer performs the tag / metadata writes", text="def post_save(...) :: writes"))
+    for w in writes:
+        path = must_pass(cfg, passes, [w], kinds=NORMAL)
+        if path:
+            ctx.bad(finding_at(prop, rid, cfg.ast_of(w), "this write also runs for a duplicate (changed is false): a re-submitted, already stored event is answered OK=false 'duplicate' and still "
+                               "modifies the store (e.g. a stored deletion request deletes again)"))
+        else:
+            ctx.ok(rid, cfg.ast_of(w), "write only when changed")
+
+
+def rule_reap(program, ctx, prop=P, rid="C06.reap"):
+    ctx.rule(
+        rid,
+        "waiting for the previous round of notification tasks must not re-raise their exceptions into the next add_event / notifier loop: the tasks in "
+        "`_notify_sub_tasks` are awaited with asyncio.wait (never raises a task's exception) or gather(..., return_exceptions=True), never with a bare gather / await of the task",
+        floor=1,
+    )
+    n = 0
+    for ci in [program.cls("nostr_relay.storage.base:BaseStorage")] + [c for c in program.subclasses(program.cls("nostr_relay.storage.base:BaseStorage"))]:
+        for name, fn in ci.methods.items():
+            if "_notify_sub_tasks" not in ast.unparse(fn):
+                continue
+            # names that alias the task list
+            names = {"self._notify_sub_tasks"}
+            for st in walk_no_nested(fn):
+                if isinstance(st, ast.Assign):
+                    tg = st.targets[0]
+                    if isinstance(tg, ast.Tuple) and isinstance(st.value, ast.Tuple):
+                        for t, v in zip(tg.elts, st.value.elts):
+                            if dotted(v) in names and isinstance(t, ast.Name):
+                                names.add(t.id)
+                    elif isinstance(tg, ast.Name) and (dotted(st.value) in names or (isinstance(st.value, ast.Call) and st.value.args and dotted(st.value.args[0]) in names)):
+                        names.add(tg.id)
+            for c in walk_no_nested(fn):
+                if isinstance(c, ast.Call) and call_name(c) in ("asyncio.gather", "gather") and any(isinstance(a, ast.Starred) and dotted(a.value) in names for a in c.args):
+                    n += 1
+                    if any(k.arg == "return_exceptions" and isinstance(k.value, ast.Constant) and k.value.value is True for k in c.keywords):
+                        ctx.ok(rid, c, "gather(..., return_exceptions=True)")
+                    else:
+                        ctx.bad(finding_at(prop, rid, c, "asyncio.gather(*tasks) re-raises the exception of a failed notification task of the *previous* event inside this add_event (after the "
+                                           "commit): the client is told OK=false for a stored event, the task list is never cleared, later events fail the same way, and on a "
+                                           "receiving worker the notifier loop ends"))
+                elif isinstance(c, ast.Call) and call_name(c) == "asyncio.wait" and c.args and dotted(c.args[0]) in names:
+                    n += 1
+                    ctx.ok(rid, c, "asyncio.wait(tasks): task exceptions stay in the tasks")
+                elif isinstance(c, ast.Await) and isinstance(c.value, ast.Name):
+                    loop = next((a for a in ancestors(c) if isinstance(a, ast.For)), None)
+                    if loop is not None and dotted(loop.iter) in names and isinstance(loop.target, ast.Name) and loop.target.id == c.value.id:
+                        n += 1
+                        ctx.bad(finding_at(prop, rid, c, "each notification task is awaited directly: a failed task's exception is re-raised into add_event"))
+    if not n:
+        ctx.bad(finding_func(prop, rid, program.func("nostr_relay.storage.base:BaseStorage.notify_all_connected"), "the previous round of notification tasks is no longer awaited", text="def notify_all_connected(...) :: wait"))
+
+
 def run(program, ctx):
+    from ..lib import rule_awaited
+
+    rule_awaited(program, ctx, P, ANCHORS)
     from . import c07
 
     rule_strict(program, ctx)
@@ -445,6 +518,11 @@ def run(program, ctx):
     rule_broadcast(program, ctx)
     rule_writer(program, ctx)
     rule_reason(program, ctx)
+    from . import c16
+
+    c16.rule_handlers(program, ctx, prop=P, rid="C06.handlers")
+    rule_noop(program, ctx)
+    rule_reap(program, ctx)
     ctx.not_decided += [
         "'retrievable thereafter' as an end-to-end fact (engine semantics, LMDB writer thread having committed)",
         "'never refused except as duplicate' for all well-formed events (value-dependent faults inside pre_save/process_tags)",
